@@ -148,17 +148,25 @@ Print Assumptions C21_blockfilter_header_chain_of_active_blocks.
      for every history of (connect, reorg, flush, restart, sync-step) events, once the index is synced its
      state equals the fold of CustomAppend over the active chain; hence txindex returns each active-chain
      transaction with its block and the block filter index returns the BIP157 header chain of the active blocks.
-   It is tied by differential execution only (index_sim correspondence).  With restarts the statement is FALSE of
-   the code: an index restart after a reorganization (two or more blocks deep) that was not committed makes
-   CoinStatsIndex abort the node and BlockFilterIndex refuse to initialise.  Witness histories (all blocks empty and
-   valid), computed on the model and replayed on the real classes (finding C21-revert-fallback). *)
-Theorem C21_index_follows_active_chain_with_restarts_refuted :
-  exists evs_live evs_restart,
-    query_summary (sim_run sim0 evs_live) = Some (false, true, true) /\
-    query_summary (sim_run sim0 evs_restart) = Some (true, false, true).
-Proof. exact index_follows_active_chain_with_restarts_refuted. Qed.
-Print Assumptions C21_index_follows_active_chain_with_restarts_refuted.
+   It is tied by differential execution only (index_sim correspondence, which always includes the restart
+   histories below).
 
+   Witness history: an index restart after a reorganization two blocks deep that was not committed.
+   - CoinStatsIndex on the current code (/repo commit b3a3ee2) follows the active chain after the restart
+     (positive witness, vm_compute on the model of the current code; not a theorem over all histories).
+   - CoinStatsIndex BEFORE b3a3ee2 aborted the node: this half of the statement is about the OLD code, modelled
+     by cs_remove_prefix_b3a3ee2 (model/IndexCoinStats.v), kept as the record of the repaired finding
+     C21-revert-fallback. *)
+Theorem C21_coinstats_restart_recovers_on_fixed_code_and_aborted_prefix_b3a3ee2 :
+  query_summary (sim_run sim0 refuted_no_restart) = Some (false, true, true) /\
+  query_summary (sim_run sim0 refuted_restart) = Some (false, true, true) /\
+  base_summary old_live = (false, true, Some [24%N]) /\ base_summary old_restarted = (true, false, Some [13%N]).
+Proof. exact coinstats_restart_recovers_on_fixed_code_and_aborted_prefix_b3a3ee2. Qed.
+Print Assumptions C21_coinstats_restart_recovers_on_fixed_code_and_aborted_prefix_b3a3ee2.
+
+(* OPEN finding (current code): in the same history BlockFilterIndex::CustomInit refuses to start, because
+   ReadFilterHeader reads the height index only ("Cannot read last block filter header; index may be corrupted"):
+   the property is false of the code in this corner. *)
 Theorem C21_blockfilter_restart_after_uncommitted_reorg_refuted :
   init_failed (sim_run sim0 (bf_refuted_prefix ++ [SvStop; SvStart false false true])) = true.
 Proof. exact blockfilter_restart_after_uncommitted_reorg_init_fails. Qed.
